@@ -326,19 +326,31 @@ theorem GQ.safe (hL : L.OK) (q : GQ L ck d g) (χ : List (List Bool)) :
     (Writer.open L ck (d.crash χ) = none → g.done = none) ∧
     ∀ w, Writer.open L ck (d.crash χ) = some w →
       (some w.root = g.done ∨ g.newer w.root) ∧
-      ∀ rec ∈ g.recs, (rec.end_ : Int) ≤ w.root.free → agreeRec (d.crash χ) rec := by
+      (∀ rec ∈ g.recs, (rec.end_ : Int) ≤ w.root.free → agreeRec (d.crash χ) rec) ∧
+      w.root.free ≤ (g.free : Int) ∧ (L.freeStart : Int) ≤ w.root.free ∧
+      (w.nextRoot = g.next ∨ w.nextRoot = L.other g.next) ∧
+      (∀ r', loadValid ck (d.crash χ) w.nextRoot = some r' → r'.gen < w.root.gen) ∧
+      loadValid ck (d.crash χ) (L.other w.nextRoot) = some w.root ∧
+      lenOK (d.crash χ) L.rootA ∧ lenOK (d.crash χ) L.rootB := by
   have hm := mixed_crash d χ
-  obtain ⟨hcur, _, _, hnx⟩ := q.mixed_slots hL hm
-  have hcases : Writer.open L ck (d.crash χ) = g.done.map (fun r => mkW r g.next) ∨
-      ∃ r', g.newer r' ∧ Writer.open L ck (d.crash χ) = some (mkW r' (L.other g.next)) := by
+  obtain ⟨hcur, hlA, hlB, hnx⟩ := q.mixed_slots hL hm
+  have hDle := q.D_le
+  have hcases : (Writer.open L ck (d.crash χ) = g.done.map (fun r => mkW r g.next) ∧
+        ∀ r', loadValid ck (d.crash χ) g.next = some r' → ∃ r, g.done = some r ∧ r'.gen < r.gen) ∨
+      ∃ r', g.newer r' ∧ Writer.open L ck (d.crash χ) = some (mkW r' (L.other g.next)) ∧
+        loadValid ck (d.crash χ) g.next = some r' := by
     rcases Option.eq_none_or_eq_some (loadValid ck (d.crash χ) g.next) with hx | ⟨r', hx⟩
     · left
-      exact open_of_slots hL ck q.next_slot hcur (fun r' h => by rw [hx] at h; cases h)
+      have hv : ∀ r', loadValid ck (d.crash χ) g.next = some r' → ∃ r, g.done = some r ∧ r'.gen < r.gen :=
+        fun r' h => by rw [hx] at h; cases h
+      exact ⟨open_of_slots hL ck q.next_slot hcur hv, hv⟩
     · rcases hnx r' hx with hold | hnew
       · left
-        exact open_of_slots hL ck q.next_slot hcur (fun r'' h => by rw [hx] at h; cases h; exact hold)
+        have hv : ∀ r'', loadValid ck (d.crash χ) g.next = some r'' → ∃ r, g.done = some r ∧ r''.gen < r.gen :=
+          fun r'' h => by rw [hx] at h; cases h; exact hold
+        exact ⟨open_of_slots hL ck q.next_slot hcur hv, hv⟩
       · right
-        refine ⟨r', hnew, ?_⟩
+        refine ⟨r', hnew, ?_, hx⟩
         have hn' := Layout.other_slot hL q.next_slot
         have h1 : loadValid ck (d.crash χ) (L.other (L.other g.next)) = some r' := by
           rw [Layout.other_other hL q.next_slot]; exact hx
@@ -351,7 +363,7 @@ theorem GQ.safe (hL : L.OK) (q : GQ L ck d g) (χ : List (List Bool)) :
         simpa using this
   have hint : ∀ (r : Root), r.free ≤ (g.D : Int) → ∀ rec ∈ g.recs, (rec.end_ : Int) ≤ r.free →
       agreeRec (d.crash χ) rec := fun r hr rec hrec hle => q.mixed_intact hL hm hrec (by omega)
-  rcases hcases with ho | ⟨r', hnew, ho⟩
+  rcases hcases with ⟨ho, hold⟩ | ⟨r', hnew, ho, hx⟩
   · rw [ho]
     cases hd : g.done with
     | none => exact ⟨fun _ => rfl, fun w h => by cases h⟩
@@ -360,13 +372,26 @@ theorem GQ.safe (hL : L.OK) (q : GQ L ck d g) (χ : List (List Bool)) :
       intro w hw
       simp only [Option.map_some, Option.some.injEq] at hw
       subst hw
-      exact ⟨Or.inl rfl, hint r (q.done_ok r hd).2.2⟩
+      have hdo := q.done_ok r hd
+      refine ⟨Or.inl rfl, hint r hdo.2.2, by simp only [mkW]; omega, hdo.2.1, Or.inl rfl, ?_, ?_, hlA, hlB⟩
+      · intro r' hr'
+        obtain ⟨r0, h0, hlt⟩ := hold r' hr'
+        rw [hd] at h0; cases h0; exact hlt
+      · show loadValid ck (d.crash χ) (L.other g.next) = some r
+        rw [hcur, hd]
   · rw [ho]
     refine ⟨fun h => (by cases h), ?_⟩
     intro w hw
     simp only [Option.some.injEq] at hw
     subst hw
-    exact ⟨Or.inr hnew, hint r' (q.newer_ok r' hnew).2.2.2⟩
+    have hno := q.newer_ok r' hnew
+    refine ⟨Or.inr hnew, hint r' hno.2.2.2, by simp only [mkW]; omega, hno.2.2.1, Or.inr rfl, ?_, ?_, hlA, hlB⟩
+    · intro r'' hr''
+      have h2 : loadValid ck (d.crash χ) (L.other g.next) = some r'' := hr''
+      rw [hcur] at h2
+      exact hno.1 r'' h2
+    · show loadValid ck (d.crash χ) (L.other (L.other g.next)) = some r'
+      rw [Layout.other_other hL q.next_slot]; exact hx
 
 end
 
